@@ -24,8 +24,14 @@ REQUIRED = ["oracle.rebuild-same", "oracle.inproc-chunked-same", "oracle.multipr
 ASSUMPTIONS = ["only deterministic picklable components; timing columns excluded", "processes <= 6",
                "seed=None (time seeded) filters are not generated"]
 
-def gen_case(rng, force_seed0=False, force_materialized=False):
+def gen_case(rng, force_seed0=False, force_materialized=False, force_partial_cache=False):
     spec = X.gen_spec(rng)
+    if force_partial_cache:
+        # a cached environment longer than one cache slice (25), read in part by a later stage, evaluated by several learners
+        g = spec["groups"][0]
+        g["n"] = rng.choice([40, 55]); g["filters"] = [[rng.choice(["chunk", "cache"])], ["take", rng.choice([8, 30])]]
+        if len(spec["lrns"]) < 2: spec["lrns"].append(X.gen_learner(rng, len(spec["lrns"])))
+        spec["triples"] = "cross"; spec.pop("combine", None)
     if force_materialized:
         # interactions and their reward objects (keyed by float action features) exist before the work is shipped to workers
         g = spec["groups"][0]
@@ -114,7 +120,7 @@ def run_shard(ctx):
     workdir = tempfile.mkdtemp(prefix=f"vf-c01-{ctx.shard}-")
     try:
         for i in range(ctx.n):
-            case = gen_case(ctx.rng, force_seed0=(i == 0), force_materialized=(i == 1))
+            case = gen_case(ctx.rng, force_seed0=(i == 0), force_materialized=(i == 1), force_partial_cache=(i == 2))
             if any(f[0] == "materialize" for g in case["spec"]["groups"] for f in g["filters"]): ctx.count("observed.cases-with-materialized-environments")
             if case["spec"]["seed"] == 0: ctx.count("observed.cases-with-experiment-seed-0")
             try:
